@@ -368,7 +368,7 @@ class Parser:
         # Convert to float first to handle scientific notation.
         try:
             return IntegerLiteral(stream.current, value=int(float(value)))
-        except ValueError as err:
+        except (ValueError, OverflowError) as err:
             raise JSONPathSyntaxError(
                 "invalid integer literal", token=stream.current
             ) from err
